@@ -9,12 +9,14 @@ the structure of `backfill`. Statements not proved are kept at the end as commen
 -/
 import Bermuda.Lemmas.Extend
 import Bermuda.Lemmas.ExtendFill
+import Bermuda.Lemmas.ExtendFillComplete
 import Bermuda.Lemmas.ExtendInc
 import Bermuda.Lemmas.ExtendIncCum
 import Bermuda.Lemmas.ExtendBackfill
 import Bermuda.Lemmas.ExtendSpec
 import Bermuda.Lemmas.ExtendDays
 import Bermuda.Lemmas.ExtendSpecDiag
+import Bermuda.Lemmas.ExtendNodup
 import Bermuda.Spec.C15
 namespace Bermuda.Properties.C15
 open Bermuda Bermuda.Extend
@@ -662,6 +664,26 @@ theorem fill_added_inside_gaps {t out : List Cell} {res? : Option Int} {nf : Boo
     · exact Or.inl ((mem_row_iff hr c).mp hrow).1
     · exact Or.inr ⟨r, hr, hfill⟩
 
+/-- **fill_complete**: for a positive resolution on whose grid the observed lags of every slice row lie,
+every lag of `range(first_lag, last_lag + res, res)` of every slice row is present in the output on that
+row: as the observed cell with that lag, or as a cell at `period_end + lag` (the fill cell). Together
+with `fill_added_inside_gaps`: exactly the unobserved inner grid lags are filled. -/
+theorem fill_complete {t out : List Cell} {res? : Option Int} {nf : Bool} {res : Int}
+    (h : fillForwardGaps t res? nf = .ok out) (hres : resolvedRes t res? = some res) (hpos : 0 < res)
+    (hgrid : ∀ r ∈ slicePeriodRows t, GridRow res r.2)
+    {r : SliceKey × List Cell} (hr : r ∈ slicePeriodRows t) {f l : Cell}
+    (hf : r.2.head? = some f) (hl : r.2.getLast? = some l) {x : Int}
+    (hx : x ∈ pyRange (truncInt f.devLag) (truncInt (l.devLag + res)) res) :
+    ∃ c ∈ out, ∃ o ∈ r.2, c.md = o.md ∧ c.ps = o.ps ∧ c.pe = o.pe ∧
+      ((c = o ∧ o.devLag = ((x : Int) : Rat)) ∨ c.ev = addMonths c.pe ((x : Int) : Rat)) := by
+  rcases fillForwardGaps_ok h with ⟨hempty, _⟩ | ⟨res', parts, hres', hparts, hperm⟩
+  · rw [hempty] at hr; cases hr
+  · rw [hres] at hres'; cases hres'
+    obtain ⟨ys, hys, hfy⟩ := mapM_ok_mem' hparts r hr
+    obtain ⟨c, hc, rest⟩ := fillRow_complete hpos (hgrid r hr) hfy hf hl hx
+    exact ⟨c, hperm.mem_iff.mpr (List.mem_flatten.mpr ⟨ys, hys, hc⟩), rest⟩
+
+
 /-- **fill_values**: a fill cell carries no invented values: it is the observation `o` of its row with
 the greatest lag below its own, moved to the new evaluation date — same metadata, period, class and
 previous date; its values are those of `o`, or (with `fill_with_none`) the same keys all `None`. -/
@@ -725,6 +747,48 @@ theorem extensionSpec_model_rightDiag_partial {t out : List Cell} {dates : List 
     finishRight_canonical (fun n hn => (hf.empties n hn).1) hf.newOk hf.fin⟩
 
 
+/-- **extensionSpec_model_rightTri**: ALL executable clauses of `rightTriSpec` hold of the model's right
+triangle, for both bases (month unit, month-aligned triangle from 1970 on, integer requested lags). -/
+theorem extensionSpec_model_rightTri {t out : List Cell} {lags : Option (List Rat)}
+    (h : makeRightTriangleU t lags (some .month) = .ok out) (hal : ∀ c ∈ t, MonthAligned c)
+    (hint : ∀ l, lags = some l → ∀ lag ∈ l, ∃ k : Int, lag = ((k : Int) : Rat)) :
+    Spec.C15.allHold (Spec.C15.rightTriSpec t lags .month out) = true := by
+  obtain ⟨h1, h2, h3, h4, h5, h6, h7, h8, h9⟩ := extensionSpec_model_rightTri_partial h hal hint
+  obtain ⟨cum, new, hf⟩ := rightTri_facts h
+  cases lags with
+  | none =>
+    have hn := rightTri_nodupCoords hf hal hint (fun l hl => by cases hl)
+    simp only [Spec.C15.allHold, Spec.C15.rightTriSpec, List.all_cons, List.all_nil,
+      h1, h2, h3, h4, h5, h6, h7, h8, h9, hn, Bool.and_self, Bool.or_true]
+  | some l =>
+    cases hd : Spec.C15.nodupList l with
+    | false =>
+      simp only [Spec.C15.allHold, Spec.C15.rightTriSpec, List.all_cons, List.all_nil,
+        h1, h2, h3, h4, h5, h6, h7, h8, h9, hd, Bool.and_self, Bool.not_false, Bool.true_or]
+    | true =>
+      have hn := rightTri_nodupCoords hf hal hint (fun l' hl' => by cases hl'; exact nodupList_nodup l hd)
+      simp only [Spec.C15.allHold, Spec.C15.rightTriSpec, List.all_cons, List.all_nil,
+        h1, h2, h3, h4, h5, h6, h7, h8, h9, hn, Bool.and_self, Bool.or_true]
+
+/-- **extensionSpec_model_rightDiag**: ALL executable clauses of `rightDiagSpec` hold of the model's right
+diagonal (`include_historic = False`), for both bases, any triangle and any date list. -/
+theorem extensionSpec_model_rightDiag {t out : List Cell} {dates : List Date}
+    (h : makeRightDiagonal t dates false = .ok out) :
+    Spec.C15.allHold (Spec.C15.rightDiagSpec t dates out) = true := by
+  obtain ⟨h1, h2, h3, h4, h5, h6, h7, h8, h9⟩ := extensionSpec_model_rightDiag_partial h
+  obtain ⟨cum, new, hf⟩ := rightDiag_facts h
+  have hnodup : (!(Spec.C15.nodupList dates) || Spec.C15.nodupCoords out) = true := by
+    cases hd : Spec.C15.nodupList dates with
+    | false => simp
+    | true =>
+      have hk := rightDiag_new_keys_nodup (nodupList_nodup dates hd) hf.newEq
+      have := nodupCoords_of_keys out
+        (finishRight_keys_nodup (fun n hn => (hf.empties n hn).1) hk hf.fin)
+      simp [this]
+  simp only [Spec.C15.allHold, Spec.C15.rightDiagSpec, List.all_cons, List.all_nil,
+    h1, h2, h3, h4, h5, h6, h7, h8, h9, hnodup, Bool.and_self]
+
+
 /-! ### non-vacuity: a concrete month-aligned two-row triangle meets the hypotheses -/
 
 def exCells : List Cell :=
@@ -767,19 +831,21 @@ example : replacementValues exFirst ["earned_premium"]
 
 /-! ### statements not proved (covered by the correspondence + Spec on the implementation's output) -/
 
--- OPEN extensionSpec_model
---   ALL executable Spec clauses hold of the model's outputs, for the four operators:
---     Spec.C15.allHold (Spec.C15.rightTriSpec t lags u out) = true   for out = makeRightTriangleU t lags (some u), etc.
---   proved: 9 of 10 clauses of `rightTriSpec` (`extensionSpec_model_rightTri_partial`) and of `rightDiagSpec`
---   (`extensionSpec_model_rightDiag_partial`). Remaining:
---   * clause `nodup` of both (multiset-level: needs distinct slices / one right-edge cell per row / injectivity of
---     lag ↦ date, and for incremental input a bijection between `new` and the result);
---   * `fillSpec`: `preserved` as the list equation `kept t out = t` (Prop form: `fill_preserves_observed`), `insideGaps` and
---     `values` (Prop forms: `fill_added_inside_gaps`, `fill_values`; the bridge needs first/last lag = min/max lag and
---     greatest-lag-below = latest-date-before on month-aligned rows), `complete` (every inner grid lag IS filled — not
---     yet proved in any form), `nodupAdded`, `emptyWhenComplete`, `canonical`;
---   * `backfillSpec`: `preserved` (Prop: `backfill_preserves_observed`), `beforeFirst`, `minLag`, `values` (Prop forms:
---     `backfill_added_before_first`, `backfill_min_lag(_exact)`, `backfill_before_first_dates`, `backfill_values`),
---     `nodupAdded`, `canonical`.
+-- (`extensionSpec_model` is split per operator: `extensionSpec_model_rightTri` and `extensionSpec_model_rightDiag`
+--  are theorems above.)
+-- OPEN extensionSpec_model_fill
+--   fillForwardGaps t res? nf = .ok out → (domain: month-aligned canonical triangle without duplicate coordinates,
+--   compatible positive resolution) → Spec.C15.allHold (Spec.C15.fillSpec t res? nf out) = true
+--   Prop forms proved: `fill_preserves_observed`, `fill_added_inside_gaps`, `fill_complete`, `fill_values`.
+--   Missing bridge: `preserved` as the list equation `kept t out = t` (sorted-permutation uniqueness), `insideGaps` /
+--   `complete` (first/last lag of the ev-sorted row = min/max lag; `innerGrid` vs `pyRange` of the model), `values`
+--   (`sourceOf` = latest date before ↔ greatest lag below), `nodupAdded`, `emptyWhenComplete`, `canonical`.
+-- OPEN extensionSpec_model_backfill
+--   backfill t statics res? minLag = .ok out → (same domain, resolution > 0, every candidate cell passes the
+--   constructor) → Spec.C15.allHold (Spec.C15.backfillSpec t statics res? minLag out) = true
+--   Prop forms proved: `backfill_preserves_observed`, `backfill_added_before_first`, `backfill_min_lag`,
+--   `backfill_min_lag_exact`, `backfill_before_first_dates`, `backfill_values`.
+--   Missing bridge: `preserved` (list equation), `beforeFirst` / `minLag` (`firstLag` = lag of the period row's head;
+--   `firstSliceOfPeriod` = the head's slice), `values` (`firstOf` = the head), `nodupAdded`, `canonical`.
 
 end Bermuda.Properties.C15
